@@ -184,6 +184,14 @@ class Path:
                 return False
             if t[0] == "const" and bool(t[1]) != pol:
                 return False
+            if t[0] == "compare" and len(t[1]) == 1 and t[1][0] in ("is", "==") and t[2][0][0] == "const" and t[2][1][0] == "const":
+                same = (t[2][0][1] is t[2][1][1]) if t[1][0] == "is" and t[2][1][1] is None else (t[2][0][1] == t[2][1][1])
+                if same != pol:
+                    return False
+            if t[0] == "compare" and len(t[1]) == 1 and t[1][0] == "is" and t[2][1] == ("const", None) and t[2][0][0] in ("list", "tuple", "dict", "set", "binop", "fstr", "comp", "lambda") and pol:
+                return False  # a freshly built object is never None
+            if t[0] == "compare" and len(t[1]) == 1 and t[1][0] == "is" and t[2][1] == ("const", None) and pol and _never_none_call(t[2][0]):
+                return False
             # x == K1 and x == K2 for two distinct constants cannot both hold
             if pol and t[0] == "compare" and t[1] in (("==",), ("is",)) and len(t[2]) == 2:
                 a, b = t[2]
@@ -196,6 +204,21 @@ class Path:
 
     def describe(self):
         return " & ".join(("" if pol else "not ") + "(" + show(t) + ")" for t, pol, _ in self.conds) or "true"
+
+
+_NEVER_NONE_BUILTINS = {"list", "set", "dict", "tuple", "sorted", "str", "int", "len", "frozenset", "bool", "float", "repr", "range", "enumerate", "zip", "reversed", "bytes"}
+_NEVER_NONE_METHODS = {"split", "rsplit", "splitlines", "join", "format", "lower", "upper", "strip", "lstrip", "rstrip", "replace", "encode", "decode", "copy", "keys", "values", "items", "hexdigest", "title", "casefold"}
+
+
+def _never_none_call(t):
+    if t[0] != "call":
+        return False
+    f = t[1]
+    if f[0] == "builtin" and f[1] in _NEVER_NONE_BUILTINS:
+        return True
+    if f[0] == "attr" and f[2] in _NEVER_NONE_METHODS:
+        return True
+    return False
 
 
 def _constant_like(t):
@@ -324,6 +347,10 @@ class Evaluator:
         return paths
 
     def stmt(self, st, p, loops):
+        if isinstance(st, (ast.Assign, ast.AnnAssign, ast.Return, ast.Expr, ast.AugAssign)):
+            split = split_ifexp(st)
+            if split is not None:
+                return self.s_If(split, p, loops)
         m = getattr(self, "s_" + type(st).__name__, None)
         if m is None:
             raise AnalysisError("statement kind %s unsupported (%s:%d)" % (type(st).__name__, self.module.relpath, st.lineno))
@@ -748,6 +775,67 @@ class Evaluator:
 
     def _elts(self, elts, p, maybe):
         return [self.expr(e, p, maybe) for e in elts]
+
+
+class _IfExpFinder(ast.NodeVisitor):
+    """First conditional expression of a statement that is evaluated at statement level
+    (not inside a lambda / comprehension, and not in a short-circuited operand)."""
+
+    def __init__(self):
+        self.found = None
+
+    def visit(self, node):
+        if self.found is not None:
+            return
+        if isinstance(node, (ast.Lambda, ast.ListComp, ast.SetComp, ast.DictComp, ast.GeneratorExp)):
+            return
+        if isinstance(node, ast.IfExp):
+            self.found = node
+            return
+        if isinstance(node, ast.BoolOp):
+            self.visit(node.values[0])  # later operands are conditional
+            return
+        self.generic_visit(node)
+
+
+class _Replace(ast.NodeTransformer):
+    def __init__(self, target, repl):
+        self.target, self.repl = target, repl
+
+    def visit(self, node):
+        if node is self.target:
+            return self.repl
+        return self.generic_visit(node)
+
+
+def split_ifexp(st):
+    """`x = f(a if c else b)`  ->  `if c: x = f(a) else: x = f(b)` (same value on each path).
+    Normalises conditional expressions and if-statements to one form."""
+    import copy
+    value = getattr(st, "value", None)
+    if value is None:
+        return None
+    f = _IfExpFinder()
+    f.visit(value)
+    if f.found is None:
+        return None
+    ie = f.found
+    a = copy.copy(st)
+    b = copy.copy(st)
+    a.value = _Replace(ie, ie.body).visit(copy.deepcopy(value)) if value is not ie else ie.body
+    b.value = _Replace(ie, ie.orelse).visit(copy.deepcopy(value)) if value is not ie else ie.orelse
+    if value is not ie:
+        # deepcopy broke node identity: redo on the copy
+        v1 = copy.deepcopy(value)
+        f1 = _IfExpFinder(); f1.visit(v1)
+        a.value = _Replace(f1.found, f1.found.body).visit(v1) if v1 is not f1.found else f1.found.body
+        v2 = copy.deepcopy(value)
+        f2 = _IfExpFinder(); f2.visit(v2)
+        b.value = _Replace(f2.found, f2.found.orelse).visit(v2) if v2 is not f2.found else f2.found.orelse
+    node = ast.If(test=ie.test, body=[a], orelse=[b])
+    ast.copy_location(node, st)
+    ast.fix_missing_locations(node)
+    return node
 
 
 def bp_result_term(bp):
